@@ -14,7 +14,6 @@ variable (L : Lexer) (cfg : Cfg) (c : Bool) (m : String)
 @[simp] theorem panic_cp : (L.panic m).cp = L.cp := rfl
 @[simp] theorem panic_nesting : (L.panic m).nesting = L.nesting := rfl
 @[simp] theorem panic_pendingR : (L.panic m).pendingR = L.pendingR := rfl
-@[simp] theorem panic_lastState : (L.panic m).lastState = L.lastState := rfl
 @[simp] theorem panic_mark : (L.panic m).mark = L.mark := rfl
 @[simp] theorem panic_lit : (L.panic m).lit = L.lit := rfl
 @[simp] theorem panic_payReg : (L.panic m).payReg = L.payReg := rfl
@@ -31,7 +30,6 @@ variable (L : Lexer) (cfg : Cfg) (c : Bool) (m : String)
 @[simp] theorem dassert_cp : (L.dassert cfg c m).cp = L.cp := rfl
 @[simp] theorem dassert_nesting : (L.dassert cfg c m).nesting = L.nesting := rfl
 @[simp] theorem dassert_pendingR : (L.dassert cfg c m).pendingR = L.pendingR := rfl
-@[simp] theorem dassert_lastState : (L.dassert cfg c m).lastState = L.lastState := rfl
 @[simp] theorem dassert_mark : (L.dassert cfg c m).mark = L.mark := rfl
 @[simp] theorem dassert_lit : (L.dassert cfg c m).lit = L.lit := rfl
 @[simp] theorem dassert_payReg : (L.dassert cfg c m).payReg = L.payReg := rfl
